@@ -91,6 +91,13 @@ class BSession:
         self._solver.add(cond)
         r = self._solver.check()
         self._solver.pop()
+        if r == z3.unknown:  # 5 s budget exhausted (loaded machine): decide with a fresh solver and a long budget before admitting the branch
+            s2 = z3.Solver()
+            s2.set("timeout", 120000)
+            s2.add(*self.assume_)
+            s2.add(*self.pathcond)
+            s2.add(cond)
+            r = s2.check()
         return r != z3.unsat
 
     # ---- queries
@@ -112,11 +119,15 @@ class BSession:
         return "unknown", None, dt
 
     def reachable(self):
-        s = z3.Solver()
-        s.set("timeout", 5000)
-        s.add(*self.assume_)
-        s.add(*self.pathcond)
-        return str(s.check())
+        for budget in (5000, 120000):
+            s = z3.Solver()
+            s.set("timeout", budget)
+            s.add(*self.assume_)
+            s.add(*self.pathcond)
+            r = str(s.check())
+            if r != "unknown":
+                break
+        return r
 
     def model_values(self, model):
         out = {}
